@@ -132,7 +132,7 @@ Proof. eexists. split; [reflexivity|]. destruct e; simpl; unfold len0; simpl; re
 
 (* ---- Tree.mrca ---- *)
 Lemma tree_mrca_deepest_p :
-  forall (ns : nspace) (t : tree) (rooted : option bool) (enc : dict Z) (S : list Z)
+  forall (ee : bool) (ns : nspace) (t : tree) (rooted : option bool) (enc : dict Z) (S : list Z)
          (start : option Z) (updated : bool),
   ns_inj ns -> (forall a, In a S -> member ns a) -> S <> [] ->
   let sid := match start with Some i => i | None => t_id t end in
@@ -141,7 +141,7 @@ Lemma tree_mrca_deepest_p :
   good_leaves t' -> members_ok ns t' -> NoDup (ids t') ->
   (refresh = true \/ current ns enc t) ->
   forall st, find_node sid t' = Some st ->
-  exists mt', tree_mrca ns (mkMt t rooted enc) (ByTaxa S) start updated
+  exists mt', tree_mrca ee ns (mkMt t rooted enc) (ByTaxa S) start updated
               = (Ok (option_map t_id (deepest S st)), mt')
               /\ mt_tree mt' = t' /\ (refresh = false -> mt' = mkMt t rooted enc).
 Proof. exact tree_mrca_taxa_l. Qed.
@@ -155,11 +155,11 @@ Qed.
 Lemma tree_after_rooted t refresh : tree_after t (Some true) refresh = t.
 Proof. unfold tree_after. simpl. rewrite andb_false_r. reflexivity. Qed.
 
-Lemma tree_mrca_errors_p ns mt start updated :
-  tree_mrca ns mt (ByTaxa []) start updated = (Err ValueErr, mt) /\
-  tree_mrca ns mt (ByMask 0) start updated = (Err ValueErr, mt) /\
-  tree_mrca ns mt NoArg start updated = (Err TypeErr, mt) /\
-  (forall S a, In a S -> ns_bit ns a = None -> tree_mrca ns mt (ByTaxa S) start updated = (Err KeyErr, mt)).
+Lemma tree_mrca_errors_p ee ns mt start updated :
+  tree_mrca ee ns mt (ByTaxa []) start updated = (Err ValueErr, mt) /\
+  tree_mrca ee ns mt (ByMask 0) start updated = (Err ValueErr, mt) /\
+  tree_mrca ee ns mt NoArg start updated = (Err TypeErr, mt) /\
+  (forall S a, In a S -> ns_bit ns a = None -> tree_mrca ee ns mt (ByTaxa S) start updated = (Err KeyErr, mt)).
 Proof.
   split; [reflexivity|]. split; [reflexivity|]. split; [reflexivity|].
   intros S a. apply tree_mrca_nonmember.
@@ -237,4 +237,22 @@ Proof.
   { intros a b Ha Hb _. unfold mval. rewrite !qtable_get.
     destruct (pdm_sym_p t p G Hk E a b) as [S1 [S2 _]]. rewrite S1, S2. reflexivity. }
   split; [apply nj_tree_total_l | apply upgma_tree_total_l]; assumption.
+Qed.
+
+(* ---- a leaf without a taxon beside the clade asked for: Tree.mrca stops too early ---- *)
+Definition bad_tree : tree :=
+  T 0 None None None
+    [T 1 None None (Some 1024) [];
+     T 3 None None (Some 1024) [T 4 (Some 1) None (Some 1024) []; T 2 (Some 0) None (Some 1024) []]].
+Definition bad_ns : nspace := [mkNsEnt 0 0 0; mkNsEnt 1 1 1].
+
+Lemma tree_mrca_taxonless_leaf_refuted_p :
+  NoDup (leaf_taxa bad_tree) /\ NoDup (ids bad_tree) /\
+  fst (tree_mrca true bad_ns (mkMt bad_tree (Some true) []) (ByTaxa [0; 1]) None true) = Ok (Some 0) /\
+  fst (tree_mrca false bad_ns (mkMt bad_tree (Some true) []) (ByTaxa [0; 1]) None true) = Ok (Some 3) /\
+  option_map t_id (deepest [0; 1] bad_tree) = Some 3.
+Proof.
+  split; [|split; [|split; [|split]]]; try reflexivity.
+  - simpl. repeat (constructor; [simpl; intuition discriminate|]). constructor.
+  - unfold ids. simpl. repeat (constructor; [simpl; intuition discriminate|]). constructor.
 Qed.
